@@ -49,7 +49,7 @@ def weave_group(group, repo, outdir, extras=(), bare=(), drop_aids=None):
     os.makedirs(outdir, exist_ok=True)
     out = os.path.join(outdir, group + '.rs')
     open(out, 'w').write('\n'.join(w.lines) + '\n')
-    m = dict(group=w.group, srcmap={str(k): v for k, v in w.srcmap.items()}, labels=w.labels, units=w.units, items=w.items)
+    m = dict(group=w.group, srcmap={str(k): v for k, v in w.srcmap.items()}, labels=w.labels, units=w.units, items=w.items, uncontracted=w.uncontracted)
     json.dump(m, open(out[:-3] + '.map.json', 'w'), indent=1)
     return out, m, w.lines
 
@@ -426,8 +426,22 @@ def _run_group(group, repo, outdir, seed, rlimit, extra_args, log_air, timeout, 
     elif res['undecided']:
         res['status'] = 'undecided'
         res['reason'] = '; '.join('%s (%s)' % (u['message'][:120], u['unit']) for u in res['undecided'][:3])
+    if mp.get('uncontracted'):
+        # an impl block whose methods are all under contract gained a method without one: its behaviour is outside every contract
+        for msg_ in mp['uncontracted']:
+            res['undecided'].append(dict(message='contract / code inventory mismatch: ' + msg_, code=None, unit=None, src=None, rendered=msg_, woven_line=None))
+        if res['status'] == 'ok':
+            res['status'] = 'undecided'
+            res['reason'] = '; '.join(mp['uncontracted'][:3])
     if log_air:
-        per_unit, other = count_obligations(os.path.join(logdir, 'root-final.air'), mp, woven_name)
+        # one AIR file per module of the woven file (units normally live in the root module; group `ser` keeps them in `mod ser`)
+        per_unit, other = {}, 0
+        for af in sorted(os.listdir(logdir)) if os.path.isdir(logdir) else []:
+            if af.endswith('-final.air') and '!' not in af:
+                pu, ot = count_obligations(os.path.join(logdir, af), mp, woven_name)
+                for k_, v_ in pu.items():
+                    per_unit[k_] = per_unit.get(k_, 0) + v_
+                other += ot
         res['obligations'] = per_unit
         res['obligations_prelude'] = other
     # consistency: every error must be explained by a diag; otherwise undecided
